@@ -172,10 +172,13 @@ func TestC02KnownProbes(t *testing.T) {
 // (c) histories of NewAVP / AddAVP / InsertAVP / Marshal
 
 type Op struct {
-	Kind string   `json:"kind"` // new-u32 | new-int | new-name | add | insert | marshal
-	AVP  *gen.AVP `json:"avp,omitempty"`
-	Name string   `json:"name,omitempty"`
-	S    *SVal    `json:"s,omitempty"`
+	// DropV (new-*): the V bit is left out of the flags argument although a vendor id is given -
+	// NewAVP documents that it sets the bit itself then.
+	DropV bool     `json:"drop_v,omitempty"`
+	Kind  string   `json:"kind"` // new-u32 | new-int | new-name | add | insert | marshal
+	AVP   *gen.AVP `json:"avp,omitempty"`
+	Name  string   `json:"name,omitempty"`
+	S     *SVal    `json:"s,omitempty"`
 }
 
 // SVal is the value of the struct handed to Marshal.
@@ -222,6 +225,10 @@ var hist = ev.Register(&ev.Prop[HCase]{
 			}
 			if i > 0 && (o.Kind == "insert" || o.Kind == "marshal") {
 				nt = true
+			}
+			if o.DropV && !seen["v-bit-left-to-NewAVP"] {
+				seen["v-bit-left-to-NewAVP"] = true
+				cl = append(cl, "v-bit-left-to-NewAVP")
 			}
 		}
 		if len(c.Ops) >= 6 {
@@ -285,6 +292,9 @@ func genHist(t *rapid.T) HCase {
 				op.Kind = "new-u32"
 			}
 		}
+		if strings.HasPrefix(op.Kind, "new-") && op.AVP != nil && op.AVP.Flags&0x80 != 0 && op.AVP.Vendor != 0 {
+			op.DropV = rapid.Bool().Draw(t, "drop-v")
+		}
 		c.Ops = append(c.Ops, op)
 	}
 	return c
@@ -313,19 +323,26 @@ func runHist(c HCase) *ev.Failure {
 		return f, d.Code, d.VendorID, nil
 	}
 	for i, o := range c.Ops {
+		argFlags := uint8(0)
+		if o.AVP != nil {
+			argFlags = o.AVP.Flags
+			if o.DropV {
+				argFlags &^= 0x80
+			}
+		}
 		switch o.Kind {
 		case "new-u32":
-			if _, err := m.NewAVP(o.AVP.Code, o.AVP.Flags, o.AVP.Vendor, o.AVP.V.ToDatatype()); err != nil {
+			if _, err := m.NewAVP(o.AVP.Code, argFlags, o.AVP.Vendor, o.AVP.V.ToDatatype()); err != nil {
 				return ev.Failf("newavp-error", "step %d NewAVP(uint32 %d): %v", i, o.AVP.Code, err)
 			}
 			model = append(model, o.AVP)
 		case "new-int":
-			if _, err := m.NewAVP(int(o.AVP.Code), o.AVP.Flags, o.AVP.Vendor, o.AVP.V.ToDatatype()); err != nil {
+			if _, err := m.NewAVP(int(o.AVP.Code), argFlags, o.AVP.Vendor, o.AVP.V.ToDatatype()); err != nil {
 				return ev.Failf("newavp-error", "step %d NewAVP(int %d): %v", i, o.AVP.Code, err)
 			}
 			model = append(model, o.AVP)
 		case "new-name":
-			a, err := m.NewAVP(o.Name, o.AVP.Flags, o.AVP.Vendor, o.AVP.V.ToDatatype())
+			a, err := m.NewAVP(o.Name, argFlags, o.AVP.Vendor, o.AVP.V.ToDatatype())
 			if err != nil {
 				return ev.Failf("newavp-error", "step %d NewAVP(%q, vendor %d): %v", i, o.Name, o.AVP.Vendor, err)
 			}
